@@ -403,3 +403,41 @@ func VerifC13_RepeatedZone() {
 		sym.Reach("both-errors")
 	}
 }
+
+// VerifC13_ConcurrentInstances: two parseTime transform instances built from
+// one configuration (two pipelines, or two connections' extraction steps) parse
+// timestamps with the same or different zones at the same time, with one
+// preemption at any call into the agent's packages: both records are parsed
+// without error, and no Go map is touched by both goroutines without
+// synchronisation (the zone cache is per instance; a shared unsynchronised map
+// aborts the real process with "concurrent map writes").
+//
+//verif:native off
+//verif:preempt 1
+//verif:preemptcalls github.com/relex/slog-agent/
+//verif:delays 1
+//verif:stub time.Date verifStubDate
+//verif:stub time.Parse verifStubParse
+//verif:stub time.FixedZone verifStubFixedZone
+//verif:stub (time.Time).Zone verifStubZone
+//verif:stub strconv.ParseFloat verifStubParseFloat
+//verif:reach done
+func VerifC13_ConcurrentInstances() {
+	zones := []string{"+01:00", "-02:30", "Z"}
+	cntA, cntB := &verifCounter{}, &verifCounter{}
+	tfA, schema := verifNewTransform(cntA)
+	tfB, _ := verifNewTransform(cntB)
+	za, zb := zones[sym.Choice("zoneA", 3)], zones[sym.Choice("zoneB", 3)]
+	done := make(chan base.FilterResult, 2)
+	work := func(tf *parseTimeTransform, zone string) {
+		rec := schema.NewTestRecord2(time.Unix(1600000000, 0), base.LogFields{"2020-03-04T05:06:07" + zone, ""})
+		rec.RawLength = 10
+		done <- tf.Transform(rec)
+	}
+	go work(tfA, za)
+	go work(tfB, zb)
+	r1, r2 := <-done, <-done
+	sym.Assert(r1 == base.PASS && r2 == base.PASS, "both records pass")
+	sym.Assert(cntA.n == 0 && cntB.n == 0, "neither timestamp is counted as an error")
+	sym.Reach("done")
+}
